@@ -21,6 +21,12 @@ pub struct ScenDef {
     pub shrink_cfg: fn(cfg: &Value) -> Vec<Value>,
     pub shrink_op: fn(op: &Value) -> Vec<Value>,
     pub worker_init: fn(prop: &str),
+    /// which property's statement governs a process-level failure (abort, hang) during `op`
+    pub crash_owner: fn(prop: &str, op: &Value) -> String,
+}
+
+pub fn crash_is_ours(prop: &str, _op: &Value) -> String {
+    prop.to_string()
 }
 
 pub fn no_shrink(_: &Value) -> Vec<Value> {
